@@ -107,7 +107,12 @@ def run(prog, tier):
 
     values = {}
     IDENTITY_SYMS.clear()
-    for kname in KERNELS:
+    # every elementary kernel of the package: the four the rules were written against plus any covariance class added since (it gets
+    # the same self-consistency obligations; if its formulas are outside the algebra the check ends "not decided", never silently)
+    extra = [k_.name for k_ in prog.subclasses("CovarianceFunction")
+             if k_.name not in KERNELS and k_.name not in ("CompositeCovariance", "ChangePoint") and not k_.name.startswith("_")
+             and all(m_ in k_.methods for m_ in ("__call__", "build_covariance", "covariance_and_gradients"))]
+    for kname in tuple(KERNELS) + tuple(sorted(extra)):
         ci = prog.cls(kname)
         IDENTITY_SYMS.update(identity_attrs(prog, ci))
         call, build, cag = ci.methods.get("__call__"), ci.methods.get("build_covariance"), ci.methods.get("covariance_and_gradients")
@@ -172,6 +177,18 @@ def run(prog, tier):
     grad_ob("RQ", "log-amplitude", grads[0], "theta[0]", K, ci, cag)
     grad_ob("RQ", "log-alpha", grads[1], "theta[1]", K, ci, cag)
     grad_ob("RQ", "log-scale (generic dimension)", grads[2], "theta[2:]", K, ci, cag, " (per dimension)")
+    # kernels added since the rules were written: entry k of the gradient list against the derivative with respect to the k-th
+    # hyper-parameter symbol of the value (theta[0], theta[1], theta[2:] ... in index order)
+    import re as _re2
+    for kname in sorted(extra):
+        K, grads, ci, cag = values[kname]
+        th = sorted({a[1] for a in K.all_atoms() if a[0] == "sym" and a[1].startswith("theta[")},
+                    key=lambda t_: int(_re2.match(r"theta\[(\d+)", t_).group(1)) if _re2.match(r"theta\[(\d+)", t_) else 99)
+        if len(th) != len(grads) or not th:
+            raise AnalysisError(f"{kname} (a covariance class the rules have no table for): {len(grads)} gradient entries against the hyper-parameter "
+                                f"symbols {th} of its value - the layout of its gradient list is not decided")
+        for k_, (sym_, g_) in enumerate(zip(th, grads)):
+            grad_ob(kname, f"entry {k_} ({sym_})", g_, sym_, K, ci, cag, " (per dimension)" if ":" in sym_ else "")
     # heteroscedastic: grads = [s * dk for s, dk in zip(sigma_sq, self.dK)], dK[i] = 2 E_ii
     ci = prog.cls("HeteroscedasticNoise")
     cag = ci.methods["covariance_and_gradients"]
@@ -199,6 +216,7 @@ def run(prog, tier):
 
     # ---------------------------------------------------------------- change-point recurrence: three copies agree
     obs.extend(_changepoint(prog, cp))
+    obs.extend(_changepoint_instance(prog, cp, 2))      # a single change-point: the size a special-cased fast path would serve
     obs.extend(_changepoint_instance(prog, cp, 3))
     obs.extend(_changepoint_instance(prog, cp, 4))      # the first size with a change-point that has neighbours on both sides AND an end one
     if tier == "thorough":
@@ -425,6 +443,17 @@ def _changepoint_instance(prog, cp, n_kernels=3):
             return NotImplemented
         if ftxt in ("self.logistic_and_gradient", "self.logistic"):
             k = idx_of(node.args[1], e, env_) if len(node.args) > 1 else None
+            # the coordinate the weight is a function of is the change-point axis: a column picked by any other index is another function
+            a0_ = node.args[0] if node.args else None
+            if a0_ is not None:
+                try:
+                    a0v = e.eval(a0_, env_) if isinstance(a0_, ast.Name) else None
+                except Unsupported:
+                    a0v = None
+                for n_ in ast.walk(a0_):
+                    if isinstance(n_, ast.Subscript) and isinstance(n_.slice, ast.Tuple) and len(n_.slice.elts) == 2 \
+                            and isinstance(n_.slice.elts[0], ast.Slice) and U(n_.slice.elts[1]) != "self.axis":
+                        k = f"{k}<column {U(n_.slice.elts[1])}>"
             if ftxt == "self.logistic":
                 return R.sym(f"W{k}")
             return TupleV([R.sym(f"W{k}"), ListV([R.sym(f"dW{k}_0"), R.sym(f"dW{k}_1")])])
@@ -1012,6 +1041,50 @@ def _means(prog):
         # derivative check of the generic entries through the value expression
         d0 = anf.diff(vb, ("sym", "theta[0]"))
         okd = d0.eq(R.const(1))
+        # the slices the value is built with lie in the order of the gradient list: the block that multiplies the first spliced table
+        # starts at 1 (right after the constant) and each further block starts where the previous one stops
+        psd = mc.methods.get("pass_spatial_data")
+        splices = [p_[1] for p_ in (want_lay or ()) if p_[0] == "splice"]
+        if psd is not None and splices and okg:
+            rzp = Resolver(psd, prog, mc.module, mc)
+            slc_def = {}
+            for st_ in ast.walk(psd):
+                if isinstance(st_, ast.Assign) and len(st_.targets) == 1 and isinstance(st_.targets[0], ast.Attribute) and U(st_.targets[0].value) == "self" \
+                        and isinstance(st_.value, ast.Call) and U(st_.value.func) == "slice" and len(st_.value.args) == 2:
+                    slc_def[st_.targets[0].attr] = tuple(rzp.term(a_, st_) for a_ in st_.value.args)
+            rzb = Resolver(bm, prog, mc.module, mc)
+            tb = rzb.return_terms()
+            order_why = []
+            prev_stop = None
+            for tab in splices:
+                base = tab[:-2] if tab.endswith(".T") else tab
+                used, bounds_ = None, None
+                for x in ast.walk(tb[0]) if len(tb) == 1 else []:
+                    if isinstance(x, (ast.Call, ast.BinOp)):
+                        args_ = x.args if isinstance(x, ast.Call) and U(x.func) == "dot" and len(x.args) == 2 else \
+                            [x.left, x.right] if isinstance(x, ast.BinOp) and isinstance(x.op, ast.MatMult) else None
+                        if args_ and U(args_[0]) == base and isinstance(args_[1], ast.Subscript) and isinstance(args_[1].slice, ast.Attribute) \
+                                and U(args_[1].slice.value) == "self" and args_[1].slice.attr in slc_def:
+                            used, bounds_ = "self." + args_[1].slice.attr, slc_def[args_[1].slice.attr]
+                        elif args_ and U(args_[0]) == base and isinstance(args_[1], ast.Subscript) and isinstance(args_[1].slice, ast.Slice) \
+                                and args_[1].slice.step is None and args_[1].slice.lower is not None:
+                            used, bounds_ = U(args_[1].slice), (args_[1].slice.lower, args_[1].slice.upper)
+                if used is None:
+                    raise AnalysisError(f"mean-gradient: the slice that multiplies `{base}` in {qual(mc, bm)} is not identified - not decided")
+                try:
+                    lo = anf_of(bounds_[0])
+                    hi = anf_of(bounds_[1]) if bounds_[1] is not None else None
+                except Unsupported as e:
+                    raise AnalysisError(f"mean-gradient: slice bounds of {used} outside the algebra ({e})")
+                want_lo = R.const(1) if prev_stop is None else prev_stop
+                if not lo.eq(want_lo):
+                    order_why.append(f"`{base}` is multiplied by theta[{used}] = theta[{lo}:{hi}], but its derivatives sit at position {want_lo} of the gradient list")
+                if hi is None and tab != splices[-1]:
+                    raise AnalysisError(f"mean-gradient: open slice `{used}` before the last block - not decided")
+                prev_stop = hi
+            if order_why:
+                okg = False
+                glay = glay + (("item", "; ".join(order_why)),)
         out.append(struct_ob("mean-gradient", qual(mc, mg), ok_val and okg and okd,
                              f"mean_and_gradients must return build_mean and, in parameter order, d mean / d theta_k "
                              f"(1; the centred coordinates; their squares): value agrees {ok_val}; list order {okg} ({show(glay)}); d/d theta0 = {d0}",
